@@ -7,5 +7,5 @@ from vf import runner; runner.setup_env(); runner._init()
 import importlib
 mod=importlib.import_module(sys.argv[1]); args=json.loads(sys.argv[2])
 t=time.time(); r=mod.run(args,0,runner.load_known(sys.argv[1].split('.')[-1].upper()))
-for k in ("case","obligations","violations","inconclusive","errors","validation","twins","atoms","wall_s"): print(k, r.get(k))
+for k in ("case","obligations","violations","inconclusive","errors","validation","twins","atoms","traced","wall_s"): print(k, r.get(k))
 PY
